@@ -123,18 +123,18 @@ fn ident(i: &syn::Ident) -> String {
 
 fn ops(o: &FieldOperation) -> String {
     match o {
-        FieldOperation::Deref { count, span } => format!("(deref {} {})", count, span_str(*span)),
-        FieldOperation::Method { name, args, span } => format!(
+        FieldOperation::Deref { count, span, .. } => format!("(deref {} {})", count, span_str(*span)),
+        FieldOperation::Method { name, args, span, .. } => format!(
             "(method {} {} ({}))",
             ident(name),
             span_str(*span),
             args.iter().map(uexpr).collect::<Vec<_>>().join(" ")
         ),
-        FieldOperation::Await { span } => format!("(await {})", span_str(*span)),
-        FieldOperation::NamedField { name, span } => format!("(named {} {})", ident(name), span_str(*span)),
-        FieldOperation::UnnamedField { index, span } => format!("(unnamed {} {})", index, span_str(*span)),
-        FieldOperation::Index { index, span } => format!("(index {} {})", uexpr(index), span_str(*span)),
-        FieldOperation::Chained { operations, span } => format!(
+        FieldOperation::Await { span, .. } => format!("(await {})", span_str(*span)),
+        FieldOperation::NamedField { name, span, .. } => format!("(named {} {})", ident(name), span_str(*span)),
+        FieldOperation::UnnamedField { index, span, .. } => format!("(unnamed {} {})", index, span_str(*span)),
+        FieldOperation::Index { index, span, .. } => format!("(index {} {})", uexpr(index), span_str(*span)),
+        FieldOperation::Chained { operations, span, .. } => format!(
             "(chained {} ({}))",
             span_str(*span),
             operations.iter().map(ops).collect::<Vec<_>>().join(" ")
